@@ -28,7 +28,8 @@ def _scratch():
 
 def _worker_verify(job):
     """verify one function (or lemma) in a fresh engine; returns plain data"""
-    kind, name, seed, timeout_ms = job
+    kind, name, seed, timeout_ms = job[:4]
+    part, nparts = (job[4], job[5]) if len(job) > 4 else (0, 1)
     t0 = time.time()
     import signal
 
@@ -37,7 +38,7 @@ def _worker_verify(job):
     signal.signal(signal.SIGALRM, _alarm)
     signal.alarm(int(os.environ.get('VERIF_WORKER_LIMIT_S', '1500')))
     out = {'kind': kind, 'name': name, 'obligations': [], 'outside': None, 'crash': None, 'info': None,
-           'assumptions': [], 'trusted_used': [], 'inlined': [], 'vacuity': []}
+           'assumptions': [], 'trusted_used': [], 'inlined': [], 'vacuity': [], 'used': []}
     try:
         import z3
         from pyvc.types import Outside
@@ -55,6 +56,8 @@ def _worker_verify(job):
                 out['info'] = {'qualname': 'lemma:' + name}
         except Outside as e:
             out['outside'] = str(e)
+        if nparts > 1:
+            v.obligations = [ob for k, ob in enumerate(v.obligations) if k % nparts == part]
         v.discharge_all()
         for ob in v.obligations:
             out['obligations'].append({
@@ -64,7 +67,8 @@ def _worker_verify(job):
                 'goal': str(ob.goal)[:400],
             })
         out['assumptions'] = sorted(v.assumptions_used)
-        out['trusted_used'] = sorted(getattr(v, 'used_trusted', ()))
+        out['trusted_used'] = sorted(q for q in v.used_contracts if v.contracts[q].trusted)
+        out['used'] = sorted(q for q in v.used_contracts if not v.contracts[q].trusted)
         out['inlined'] = sorted(v.inlined)
         out['vacuity'] = [(n, str(r)) for n, r in v.vacuity]
         out['solver_seconds'] = round(v.solver_seconds, 3)
@@ -116,15 +120,29 @@ def main(argv=None):
         return contracts.replay_file(prop, a.replay)
 
     timeout_ms = 20000 if tier == 'quick' else 60000
-    jobs = [('function', q, seed, timeout_ms) for q in plan['functions']] + \
-           [('lemma', n, seed, timeout_ms) for n in plan['lemmas']]
+    def expand(kind, name):
+        n = contracts.parallel_parts(kind, name)
+        return [(kind, name, seed, timeout_ms, k, n) for k in range(n)]
+    jobs = [j for q in plan['functions'] for j in expand('function', q)] + \
+           [j for n in plan['lemmas'] for j in expand('lemma', n)]
     if a.only:
         jobs = [j for j in jobs if a.only in j[1]]
     results = []
-    if jobs:
-        ctx = mp.get_context('fork')
+    done = set()
+    closure_added = []
+    ctx = mp.get_context('fork')
+    while jobs:
         with ctx.Pool(min(a.jobs, len(jobs))) as pool:
-            results = pool.map(_worker_verify, jobs, chunksize=1)
+            batch = pool.map(_worker_verify, jobs, chunksize=1)
+        results.extend(batch)
+        done |= {j[1] for j in jobs}
+        # modularity: a caller was checked against its callees' CONTRACTS, so every contract it relied on must itself be
+        # verified in this check (transitively), whatever properties it is tagged with
+        more = sorted({q for r in batch for q in r.get('used', [])} - done)
+        if a.only:
+            more = []
+        closure_added.extend(more)
+        jobs = [j for q in more for j in expand('function', q)]
 
     crashed = [r for r in results if r['crash']]
     outside = [r for r in results if r['outside']]
@@ -184,7 +202,7 @@ def main(argv=None):
             checker_problems.append("obligations missing w.r.t. baseline: %s" % ", ".join(missing[:5]))
     elif expected is None and plan['functions'] and not a.update_baseline and not a.only:
         checker_problems.append("no committed baseline for %s" % prop)
-    if jobs and not obligations and not a.only:
+    if results and not obligations and not a.only:
         checker_problems.append("zero obligations generated")
     if a.only:
         native = []
@@ -233,7 +251,12 @@ def main(argv=None):
         o = obligations[n][0]
         samples.append({'obligation': n, 'clause': o['where'][:200], 'paths': len(obligations[n]),
                         'status': 'discharged' if n not in failed else o['status']})
-    funcs = [dict(r['info'], wall_s=r['wall']) for r in results if r['info'] and r['kind'] == 'function']
+    funcs = []
+    seen_f = set()
+    for r in results:
+        if r['info'] and r['kind'] == 'function' and r['name'] not in seen_f:
+            seen_f.add(r['name'])
+            funcs.append(dict(r['info'], wall_s=r['wall']))
     trusted = sorted(set(plan['trusted']) | {t for r in results for t in r['trusted_used']})
     assumptions = sorted({x for r in results for x in r['assumptions']} | set(plan.get('assumptions', [])))
     slow = [{'obligation': n, 'seconds': round(max(o['seconds'] for o in obs), 2)} for n, obs in obligations.items()
@@ -246,6 +269,7 @@ def main(argv=None):
         'trusted_base': trusted,
         'functions_under_contract': funcs,
         'lemmas': plan['lemmas'],
+        'callee_contracts_verified_too': closure_added,
         'inlined_without_contract': sorted({x for r in results for x in r['inlined']}),
         'backends': backends, 'solver_seconds': round(solver_s, 2), 'slow': slow,
         'samples': samples,
